@@ -742,7 +742,7 @@ func judgeCall(sch *ref.Schema, svc *svcJ, cl *callJ, m *methodJ, gm *goMethod, 
 			}
 		}
 		if g := ref.Normalise(structType(as), got); !ref.Equal(wantArgs, g) {
-			return 0, fmt.Errorf("the handler received different argument values\n  passed   %s\n  received %s", ref.Show(wantArgs), ref.Show(g))
+			return 0, fmt.Errorf("the handler received different argument values\n  first difference: %s\n  passed   %s\n  received %s", vt.Truncate(ref.FirstDiff(wantArgs, g), 1500), ref.Show(wantArgs), ref.Show(g))
 		}
 	}
 
